@@ -76,11 +76,46 @@ def check_variant_tails(rep, drv, case, rng):
     return data
 
 
-def check_stream(rep, cases_enc, codec_name, seekable, rng):
+def has_definite_constructed(e):
+    from harness.props import c11
+    starts, complete = c11.element_starts(e)
+    return (not complete) or any(inside for _, inside in starts)
+
+
+def s4_first_item(cases_enc):
+    """index of the first item of a back-to-back stream during which the caching wrapper of a non-seekable stream drops
+    its cache (and renumbers its positions) inside a definite-length constructed element - the recorded finding S4 of
+    C11 (known_findings.json): from that item on the definite-length arithmetic of the decoder is off.  None: never."""
+    from harness.props import c11
+    base = 0
+    off = 0
+    for i, (_, e) in enumerate(cases_enc):
+        starts, complete = c11.element_starts(e)
+        for p, inside in starts:
+            if off + p - base > c11.B:
+                base = off + p
+                if inside:
+                    return i
+        off += len(e)
+    return None
+
+
+def s4_sig(kind, seekable, cases_enc, failed_item):
+    if kind == 'growing' and not seekable:
+        first = s4_first_item(cases_enc)
+        if first is not None and failed_item >= first:
+            return 'S4-wrapper-renumber'
+    return None
+
+
+ALL_KINDS = ('bytesio', 'growing', 'blocks-1', 'blocks-2', 'blocks-3', 'blocks-5', 'polling')
+
+
+def check_stream(rep, cases_enc, codec_name, seekable, rng, kinds=ALL_KINDS):
     """several encodings back to back: one object per encoding, position after each = its end"""
     data = b''.join(e for _, e in cases_enc)
     polls = sorted(set(rng.randrange(0, 4 * len(cases_enc) + 8) for _ in range(rng.randrange(1, 6))))
-    for kind in ('bytesio', 'growing', 'blocks-1', 'blocks-2', 'blocks-3', 'blocks-5', 'polling'):
+    for kind in kinds:
         if kind == 'bytesio':
             s = io.BytesIO(data)
         elif kind == 'polling':
@@ -120,11 +155,13 @@ def check_stream(rep, cases_enc, codec_name, seekable, rng):
                     return
                 a = gen.abstract(c.t, obj)
                 if not gen.val_equiv(c.t, a, c.v):
-                    rep.fail('stream-item-value', 'item %d decoded to %s' % (i, gen.val_sexp(a)[:200]), replay)
+                    rep.fail(s4_sig(kind, seekable, cases_enc, i) or 'stream-item-value',
+                             'item %d decoded to %s' % (i, gen.val_sexp(a)[:200]), replay)
                     return
                 got.append(sub.tell())
         except Exception as ex:  # noqa
-            rep.fail('stream-' + codec.classify(ex), 'stream of %d items: %r' % (len(cases_enc), ex), replay)
+            rep.fail(s4_sig(kind, seekable, cases_enc, len(got)) or 'stream-' + codec.classify(ex),
+                     'stream of %d items, item %d: %r' % (len(cases_enc), len(got), ex), replay)
             return
         # CachingStreamWrapper renumbers positions when it drops its cache (known: S4); compare deltas there
         if kind == 'growing' and not seekable:
@@ -132,6 +169,31 @@ def check_stream(rep, cases_enc, codec_name, seekable, rng):
         if got != ends:
             rep.fail('stream-position', 'positions after each object %r, ends of encodings %r' % (got, ends), replay)
         rep.count('streams')
+
+
+def check_run_of_equal_items(rep, c, e, k):
+    """k copies of one encoding on a non-seekable stream read by ONE StreamingDecoder: k objects, all equal to the value"""
+    from pyasn1.codec.streaming import asSeekableStream
+    s = streams.GrowingStream(seekable=False)
+    s.feed(e * k)
+    s.close_input()
+    replay = {'kind': 'equal-run', 'codec': 'ber', 'copies': k, 'type': gen.ty_sexp(c.t), 'value': gen.val_sexp(c.v), 'bytes': e.hex()}
+    n = 0
+    try:
+        for obj in codec.DEC['ber'].StreamingDecoder(asSeekableStream(s), asn1Spec=c.schema):
+            if isinstance(obj, error.SubstrateUnderrunError):
+                rep.fail('equal-run-underrun', 'underrun after %d of %d complete copies' % (n, k), replay)
+                return
+            if not gen.val_equiv(c.t, gen.abstract(c.t, obj), c.v):
+                rep.fail('equal-run-value', 'copy %d of %d decoded to another value' % (n, k), replay)
+                return
+            n += 1
+    except Exception as ex:  # noqa
+        rep.fail('equal-run-' + codec.classify(ex), 'copy %d of %d (%d octets each): %r' % (n, k, len(e), ex), replay)
+        return
+    if n != k:
+        rep.fail('equal-run-count', '%d objects from %d copies' % (n, k), replay)
+    rep.count('equal-runs')
 
 
 def run(rep, tier, seed):
@@ -199,6 +261,37 @@ def run(rep, tier, seed):
         if not items:
             continue
         check_stream(rep, items, cdc, rng.random() < 0.5, rng)
+
+    # streams several times longer than io.DEFAULT_BUFFER_SIZE: the caching wrapper of a non-seekable stream drops its
+    # cache between two objects once it has grown past that size - the octets read ahead (end-of-stream peek, the
+    # end-of-octets look-ahead) must survive the drop
+    for rnd in range(2 if tier == 'quick' else 8):
+        if not pool:
+            break
+        items, total = [], 0
+        while total < 3 * io.DEFAULT_BUFFER_SIZE + 1000:
+            m, c, e = rng.choice(pool)
+            items.append((c, e))
+            total += len(e)
+        rep.case('longstream %d %d' % (rnd, total), nontrivial=True)
+        check_stream(rep, items, 'ber', False, rng, kinds=('growing', 'blocks-3'))
+        if s4_first_item(items) is not None:
+            rep.count('longstreams-in-S4-region')
+        # the same with items that hold no definite-length constructed element (S4 cannot apply: every failure counts),
+        # one decoder per item and one decoder for a run of equal items (so that the end-of-stream peek between two
+        # objects is in play as well)
+        flat = [(c, e) for (m, c, e) in pool if not has_definite_constructed(e)]
+        if not flat:
+            continue
+        items, total = [], 0
+        while total < 3 * io.DEFAULT_BUFFER_SIZE + 1000:
+            c, e = rng.choice(flat)
+            items.append((c, e))
+            total += len(e)
+        rep.case('longstream-flat %d %d' % (rnd, total), nontrivial=True)
+        check_stream(rep, items, 'ber', False, rng, kinds=('growing',))
+        c, e = max((rng.choice(flat) for _ in range(4)), key=lambda ce: len(ce[1]))
+        check_run_of_equal_items(rep, c, e, 3 * io.DEFAULT_BUFFER_SIZE // max(1, len(e)) + 5)
 
     def check_one(c, drv, case, r):
         check_case(c, drv, case, [tuple(r.get('enc', ['ber', True, 0]))], common.rng_for(0, 'shrink'))
